@@ -150,6 +150,10 @@ def run_case(case: dict) -> dict:
 
         return Patch.from_function(marker)
 
+    @patch_constraints(x86_syntax=X86Syntax.ATT)
+    def newfn_body(ctx):
+        return "ret"
+
     passes_in = case["passes"]
     plan = []  # per pass: list of (reg id, scope description)
     k = 0
@@ -173,6 +177,10 @@ def run_case(case: dict) -> dict:
         def begin_module(self, module, functions, rewriting_ctx):
             for reg_id, sc in self.items:
                 rewriting_ctx.register_insert(scope_obj(sc, r), make_patch(reg_id))
+            if self.idx == 0 and case.get("insfn"):
+                # a function inserted by the same apply(): the scopes designate blocks of the
+                # module as it is, never the code the rewrite itself brings in
+                rewriting_ctx.register_insert_function("vfy_newfn", Patch.from_function(newfn_body))
             if self.idx == len(plan) - 1:
                 state["stage"] = "apply"
 
